@@ -41,7 +41,7 @@ class BiasedSVDConfig:
     learn).
     """
 
-    damping: Damping = 5
+    damping: Damping = 5.0
     algorithm: Literal["arpack", "randomized"] = "randomized"
     n_iter: int = 5
 
